@@ -1,5 +1,7 @@
 package main
 
+import "strings"
+
 type checkDef struct {
 	ID          string
 	Title       string
@@ -24,7 +26,7 @@ func (c *checkDef) Owns(prop string) bool {
 	return false
 }
 
-func racePackages() []string { return []string{"./cache", "./utils/event", "./proxy"} }
+func racePackages() []string { return []string{"./cache", "./utils/event", "./proxy", "./proxy/certs"} }
 
 
 var commonAssumptions = []string{
@@ -101,6 +103,14 @@ func checkC13() *checkDef {
 						Init: []string{"S:a:100", "S:b:100", "S:c:100", "S:d:100", "S:f:600", "T"}, Threads: [][]string{{"D:f"}}, Final: []string{"Q"}})
 					ps = append(ps, sched{Name: name("store-evict-vs-delete"), cp: full, Prop: "C13", Checks: []string{"evict-stops-at-target", "counters"},
 						Init: []string{"S:a:100", "S:b:100", "S:c:100", "S:d:100", "S:f:600"}, Threads: [][]string{{"S:e:50"}, {"D:f"}}, Final: []string{"Q"}})
+				}
+			}
+			// "a limit or interval changed at run time governs the following cycles": back-to-back changes,
+			// every schedule of their notifications; the cache / janitor must end up with the later value
+			for _, sc := range c19CacheScenarios() {
+				if strings.HasPrefix(sc.Name, "limit-v1-v2") || strings.HasPrefix(sc.Name, "interval-v1-v2") {
+					sc.Prop = "C13"
+					ps = append(ps, sc)
 				}
 			}
 			return []run{
@@ -340,6 +350,11 @@ func coalescingScenarios(prop string, clients int) []psched {
 		}
 		ps = append(ps, psched{Name: n("cold-no-store"), Backend: be, Clients: clients, Start: "cold", Outcome: "no-store", Prop: prop})
 		ps = append(ps, psched{Name: n("cold-500"), Backend: be, Clients: clients, Start: "cold", Outcome: "status-500", Prop: prop})
+		// the shared fetch fails once (transient 503): nothing can be shared, every client falls back to a
+		// fetch of its own and must still receive the complete current body with status 200
+		ps = append(ps, psched{Name: n("cold-transient-503"), Backend: be, Clients: clients, Start: "cold", Outcome: "transient-503", Prop: prop})
+		ps = append(ps, psched{Name: n("stale-304-transient-503"), Backend: be, Clients: clients, Start: "stale-304", Outcome: "transient-503", Prop: prop})
+		ps = append(ps, psched{Name: n("stale-200-transient-503"), Backend: be, Clients: clients, Start: "stale-200", Outcome: "transient-503", Prop: prop})
 		ps = append(ps, psched{Name: n("cold-slow-readers"), Backend: be, Clients: clients, Start: "cold", Outcome: "cacheable", Slow: true, Prop: prop})
 		ps = append(ps, psched{Name: n("cold-client1-disconnects"), Backend: be, Clients: clients, Start: "cold", Outcome: "cacheable", Cancel: 1, Prop: prop})
 		ps = append(ps, psched{Name: n("cold-client2-disconnects"), Backend: be, Clients: clients, Start: "cold", Outcome: "cacheable", Cancel: 2, Prop: prop})
@@ -534,6 +549,7 @@ func checkC19() *checkDef {
 				{Pkg: "./config", Scenario: "config/listener-sched", Params: map[string]any{}, K: k, E: 1, F: 2, Horizon: 5000, Workers: 4},
 				{Pkg: "./proxy", Scenario: "proxy/switches", Params: map[string]any{}, Workers: 8},
 				{Pkg: "./cache", Scenario: "cache/sched", Params: c19CacheScenarios(), K: k, E: 1, F: 2, Horizon: 5000},
+				{Pkg: "./cache", Scenario: "cache/settings", Params: map[string]any{"depth": 3}},
 			}
 		},
 	}
@@ -589,6 +605,8 @@ func checkC15() *checkDef {
 				{Pkg: "./cache", Scenario: "cache/sched", Params: ps, K: k, E: 1, Horizon: 5000, Race: true},
 				{Pkg: "./utils/event", Scenario: "event/sched", Params: eventRaceScenarios(), K: k + 1, E: 1, Horizon: 2000, Race: true, Workers: 4},
 				{Pkg: "./proxy", Scenario: "proxy/sched", Params: proxyRaceScenarios(), K: k, E: 1, F: 1, Horizon: 8000, Race: true},
+				// certificate issuance: concurrent first requests for one host and for different hosts
+				{Pkg: "./proxy/certs", Scenario: "certs/sched", Params: map[string]any{}, K: k, E: 0, Horizon: 3000, Race: true, Workers: 4},
 			}
 		},
 	}
@@ -653,6 +671,10 @@ func checkC01() *checkDef {
 				{Pkg: "./proxy", Scenario: "proxy/range", Params: map[string]any{"backend": "memory"}},
 				{Pkg: "./proxy", Scenario: "proxy/range", Params: map[string]any{"backend": "file"}},
 				{Pkg: "./proxy", Scenario: "proxy/fault", Params: map[string]any{}},
+				// revalidation histories (all validator schemes incl. 304 answers that carry payload fields):
+				// every 200 delivered must carry the content type and length the origin sent with that body
+				{Pkg: "./proxy", Scenario: "proxy/reval", Params: map[string]any{"backend": "memory", "depth": 3}},
+				{Pkg: "./proxy", Scenario: "proxy/reval", Params: map[string]any{"backend": "file", "depth": 3}},
 			}
 		},
 	}
@@ -747,6 +769,11 @@ func checkC14() *checkDef {
 						Init:    []string{"S:a:300", "S:c:300"},
 						Threads: [][]string{{"L:400", "I:500"}, {"T", "S:b:10"}},
 						Final:   []string{"Q", "X"}})
+					// memory budget and size limit changes racing stores and reads (the budget subscriber works under the map lock)
+					ps = append(ps, sched{Name: name("budget-vs-ops"), cp: base, Prop: "C14",
+						Init:    []string{"S:a:100"},
+						Threads: [][]string{{"B:50", "L:400"}, {"S:c:100", "G:a"}},
+						Final:   []string{"Q", "S:d:10", "G:a", "X"}})
 					// back-to-back interval changes (1-buffered channel) racing Destroy
 					ps = append(ps, sched{Name: name("config-vs-destroy"), cp: base, Prop: "C14",
 						Init:    []string{"S:a:300"},
@@ -765,6 +792,8 @@ func checkC14() *checkDef {
 			return []run{
 				{Pkg: "./cache", Scenario: "cache/sched", Params: ps, K: k, E: 1, Horizon: 5000},
 				{Pkg: "./proxy", Scenario: "proxy/sched", Params: pp, K: k, E: 1, F: 1, Horizon: 8000},
+				// every history (depth 3) of run-time changes of size limit, memory budget and cleanup interval followed by a probe must run to completion
+				{Pkg: "./cache", Scenario: "cache/settings", Params: map[string]any{"depth": 3}},
 			}
 		},
 	}
